@@ -229,3 +229,130 @@ Proof.
     + destruct Ha as [Ha|Ha]; [subst; rewrite Nat.eqb_refl in E; discriminate|].
       rewrite (IHl Hnd' Ha). symmetry. apply Permutation_middle.
 Qed.
+
+(* ---- the length of a run ---- *)
+(* run_steps is run_inst on tokens taken as soon as the instance is free *)
+Lemma run_steps_run_inst : forall v d toks s,
+  fst (run_steps v d s toks) = run_inst v d (is_w s) (is_free s) (map (pair 0) toks) (is_durs s).
+Proof.
+  intros v d toks. induction toks as [|next r IH]; intros s; cbn [run_steps map run_inst]; [reflexivity|].
+  unfold step_inst. rewrite Z.add_0_r.
+  destruct (wait v (is_w s) _) as [st' o].
+  destruct (decide d (is_slow_down st')).
+  - match goal with |- context [run_steps v d ?S r] => pose proof (IH S) as R; destruct (run_steps v d S r) as [l s''] end.
+    cbn [fst] in *. rewrite R. reflexivity.
+  - match goal with |- context [run_steps v d ?S r] => pose proof (IH S) as R; destruct (run_steps v d S r) as [l s''] end.
+    cbn [fst] in *. rewrite R. reflexivity.
+Qed.
+
+Definition durs_le (dmax : Z) (s : istate) : Prop := Forall (fun x => 0 <= x <= dmax) (is_durs s).
+
+(* one token, discard_overflow enabled, current tree: the instance is free again within
+   2 s + one response time of the token's time (or was free later than that already) *)
+Lemma step_inst_bound : forall s next sh s' tmax dmax M,
+  inst_inv s -> durs_le dmax s -> 0 <= dmax -> step_inst wfixed true s next = (sh, s') ->
+  next <= tmax -> tmax + max_overdue + dmax <= M -> is_free s <= M ->
+  is_free s' <= M /\ durs_le dmax s'.
+Proof.
+  intros s next sh s' tmax dmax M Hinv Hd Hdm Hs Hn HM Hf.
+  destruct (step_inst_ok _ _ _ _ _ _ Hinv Hs) as [Hok _].
+  destruct Hok as [_ [_ [Hdisc [_ [Hfire _]]]]].
+  unfold step_inst in Hs.
+  set (c := {| c_ctx_done := false; c_tok := Some next; c_now := is_free s; c_cancel_in_sleep := false; c_wake := next |}) in *.
+  destruct (wait wfixed (is_w s) c) as [st' o] eqn:Ew.
+  destruct Hinv as [Hl _].
+  pose proof (ideal_return _ _ _ _ _ _ Hl Ew) as Hret. fold c in Hret.
+  unfold durs_le in *.
+  destruct (decide true (is_slow_down st')); injection Hs as <- <-; cbn [s_entry s_tok s_dec is_free is_durs] in *.
+  - specialize (Hfire eq_refl eq_refl eq_refl). split.
+    + assert (match is_durs s with x :: _ => x | [] => 0 end <= dmax).
+      { destruct (is_durs s); [lia|]. inversion Hd; lia. }
+      lia.
+    + destruct (is_durs s); [constructor|]. inversion Hd; assumption.
+  - destruct (Hdisc eq_refl) as [_ Hlate]. split; [|exact Hd].
+    rewrite Hret in *. unfold max_overdue in *. lia.
+Qed.
+
+Lemma run_steps_bound : forall toks s tmax dmax M,
+  inst_inv s -> durs_le dmax s -> 0 <= dmax -> Forall (fun x => x <= tmax) toks ->
+  tmax + max_overdue + dmax <= M -> is_free s <= M ->
+  is_free (snd (run_steps wfixed true s toks)) <= M.
+Proof.
+  induction toks as [|next r IH]; intros s tmax dmax M Hinv Hd Hdm Ht HM Hf; cbn [run_steps]; [exact Hf|].
+  inversion Ht; subst.
+  destruct (step_inst wfixed true s next) as [sh s'] eqn:Es.
+  destruct (step_inst_bound _ _ _ _ _ _ _ Hinv Hd Hdm Es H1 HM Hf) as [Hf' Hd'].
+  destruct (step_inst_ok _ _ _ _ _ _ Hinv Es) as [_ [_ Hinv']].
+  pose proof (IH s' tmax dmax M Hinv' Hd' Hdm H2 HM Hf') as R.
+  destruct (run_steps wfixed true s' r) as [l s'']. exact R.
+Qed.
+
+Lemma shared_final_bound : forall toks sts tmax dmax M,
+  Forall inst_inv sts -> Forall (durs_le dmax) sts -> 0 <= dmax -> Forall (fun x => x <= tmax) toks ->
+  tmax + max_overdue + dmax <= M -> Forall (fun s => is_free s <= M) sts ->
+  Forall (fun s => is_free s <= M) (shared_final wfixed true sts toks).
+Proof.
+  induction toks as [|next r IH]; intros sts tmax dmax M Hinv Hd Hdm Ht HM Hf; cbn [shared_final]; [exact Hf|].
+  inversion Ht; subst.
+  destruct (nth_error sts (argmin sts)) as [s|] eqn:En; [|exact Hf].
+  pose proof (nth_error_In _ _ En) as Hin.
+  assert (Hi : inst_inv s) by (eapply Forall_forall in Hinv; eauto).
+  assert (Hds : durs_le dmax s) by (eapply Forall_forall in Hd; eauto).
+  assert (Hfs : is_free s <= M) by (eapply Forall_forall in Hf; eauto; exact Hf).
+  destruct (step_inst wfixed true s next) as [sh s'] eqn:Es. cbn [snd].
+  destruct (step_inst_bound _ _ _ _ _ _ _ Hi Hds Hdm Es H1 HM Hfs) as [Hf' Hd'].
+  destruct (step_inst_ok _ _ _ _ _ _ Hi Es) as [_ [_ Hinv']].
+  eapply IH; eauto using Forall_update.
+Qed.
+
+Lemma init_states_durs : forall starts durs dmax,
+  Forall (Forall (fun x => 0 <= x <= dmax)) durs -> Forall (durs_le dmax) (init_states starts durs).
+Proof.
+  intros starts durs dmax Hd. unfold init_states. apply Forall_forall. intros s Hin.
+  apply in_map_iff in Hin. destruct Hin as [[st du] [<- Hin]]. unfold durs_le. cbn [is_durs snd].
+  apply in_combine_r in Hin. apply in_app_or in Hin. destruct Hin as [Hin|Hin].
+  - eapply Forall_forall in Hd; eauto.
+  - apply repeat_spec in Hin. subst. constructor.
+Qed.
+
+Lemma init_states_free : forall starts durs smax,
+  Forall (fun s => s <= smax) starts -> Forall (fun s => is_free s <= smax) (init_states starts durs).
+Proof.
+  intros starts durs smax Hs. unfold init_states. apply Forall_forall. intros s Hin.
+  apply in_map_iff in Hin. destruct Hin as [[st du] [<- Hin]]. cbn [is_free fst].
+  apply in_combine_l in Hin. eapply Forall_forall in Hs; eauto.
+Qed.
+
+(* The run-length bound of the property, for whole pools: discard_overflow enabled (current tree),
+   every instance is done within 2 s + one response time of the end of the profile, counted from
+   the start of the last instance -- however slow the target is (dmax bounds ONE response, not
+   their sum). *)
+Lemma pool_run_length : forall p starts offs durs smax omax dmax,
+  p_discard p = true ->
+  Forall (Forall (fun x => 0 <= x <= dmax)) durs -> 0 <= dmax ->
+  Forall (fun s => s <= smax) starts -> Forall (fun o => o <= omax) offs -> 0 <= omax ->
+  Forall (fun s => is_free s <= smax + omax + max_overdue + dmax) (pool_final wfixed p starts offs durs).
+Proof.
+  intros p starts offs durs smax omax dmax Hp Hd Hdm Hs Ho Hom. unfold pool_final, instance_discard. rewrite Hp.
+  assert (Hd0 : Forall (Forall (fun x => 0 <= x)) durs).
+  { eapply Forall_impl; [|exact Hd]. intros l Hl. eapply Forall_impl; [|exact Hl]. cbn. intros; lia. }
+  pose proof (init_states_inv starts durs Hd0) as Hi.
+  pose proof (init_states_durs starts durs dmax Hd) as Hdu.
+  pose proof (init_states_free starts durs smax Hs) as Hf.
+  destruct (p_per_instance p).
+  - apply Forall_forall. intros s' Hin. apply in_map_iff in Hin. destruct Hin as [s [<- Hin]].
+    eapply Forall_forall in Hi; eauto. eapply Forall_forall in Hdu; eauto. eapply Forall_forall in Hf; eauto. cbn in Hf.
+    apply run_steps_bound with (tmax := smax + omax) (dmax := dmax); auto.
+    + apply Forall_forall. intros x Hx. apply in_map_iff in Hx. destruct Hx as [o [<- Ho']].
+      eapply Forall_forall in Ho; eauto. cbn in Ho. lia.
+    + lia.
+    + unfold max_overdue. lia.
+  - destruct starts as [|s0 sr].
+    { unfold init_states. cbn. destruct offs; cbn; constructor. }
+    apply shared_final_bound with (tmax := smax + omax) (dmax := dmax); auto.
+    + apply Forall_forall. intros x Hx. apply in_map_iff in Hx. destruct Hx as [o [<- Ho']].
+      eapply Forall_forall in Ho; eauto. cbn in Ho.
+      assert (s0 <= smax) by (inversion Hs; assumption). cbn [hd]. lia.
+    + lia.
+    + eapply Forall_impl; [|exact Hf]. cbn. intros. unfold max_overdue. lia.
+Qed.
